@@ -129,10 +129,15 @@ def check_assembly(prog, rep):
                 good = False
                 continue
             src = _sources(v, defs)
+            # the optimiser's result object: locals bound to a call of pymoo's minimize()
+            resn = {nm for nm, ds in defs.items() for d in ds if isinstance(d.value, ast.Call) and dump(d.value.func).split(".")[-1] == "minimize"} or {"res"}
             # classify every leaf by result slot / incumbent role
             roles = set()
             for s in src:
                 base = s.split("#")[0]
+                for rn_ in resn:
+                    if base.startswith(rn_ + "."):
+                        base = "res." + base[len(rn_) + 1:]
                 if base.startswith("res.") and len(base) == 5:
                     roles.add({"X": "soln_decn", "F": "soln_obj", "G": "soln_ineqcv", "H": "soln_eqcv"}.get(base[4], "?" + base))
                 elif "evalfn(" in base and "#" in s:
@@ -647,8 +652,14 @@ def check_operators(prog, rep):
         Xm = Xm[0]
         loop = [s for s in body_nodoc(f.node) if isinstance(s, ast.For)]
         i = dump(loop[0].target) if loop else "i"
-        okm = txt.get("mab") == "~np.isin(%s[%s, :], self.setspace)" % (Xm, i) and txt.get("mba") == "~np.isin(self.setspace, %s[%s, :])" % (Xm, i) \
-            and txt.get("bp") == "self.setspace[mba]" and txt.get("ap") == "%s[%s, mab]" % (Xm, i) and txt.get("%s[%s, mab]" % (Xm, i)) == "ap"
+        # roles by definition, not by name: mab = members outside the set space, mba = set-space elements not in the individual
+        mab = [k for k, v in txt.items() if v == "~np.isin(%s[%s, :], self.setspace)" % (Xm, i)]
+        mba = [k for k, v in txt.items() if v == "~np.isin(self.setspace, %s[%s, :])" % (Xm, i)]
+        okm = False
+        if len(mab) == 1 and len(mba) == 1:
+            bpn = [k for k, v in txt.items() if v == "self.setspace[%s]" % mba[0]]
+            apn = [k for k, v in txt.items() if v == "%s[%s, %s]" % (Xm, i, mab[0])]
+            okm = len(bpn) == 1 and len(apn) == 1 and txt.get("%s[%s, %s]" % (Xm, i, mab[0])) == apn[0]
         if okm:
             rep.ok("R4-subsets", f.qualname, "replaced positions = members outside the set space; pool = setspace \\ individual; written back through the same mask on a copy")
         else:
@@ -661,8 +672,11 @@ def check_operators(prog, rep):
         f = prog.own_method(c, "_do")
         rep.saw(f)
         body = body_nodoc(f.node)
-        ds = [dump(s.value) for s in body if isinstance(s, ast.Assign)]
-        okk = len(ds) == 2 and ds[0].startswith("super(%s, self)._do(" % cname) and ds[1] in ("out.round(0).astype(X.dtype)", "numpy.round(out).astype(X.dtype)", "out.round().astype(X.dtype)")
+        asg_ = [s for s in body if isinstance(s, ast.Assign)]
+        ds = [dump(s.value) for s in asg_]
+        o_ = dump(asg_[0].targets[0]) if asg_ else "out"      # the local holding the real-coded operator's output
+        okk = len(ds) == 2 and ds[0].startswith("super(%s, self)._do(" % cname) and ds[1] in ("%s.round(0).astype(X.dtype)" % o_, "numpy.round(%s).astype(X.dtype)" % o_,
+                                                                                               "%s.round().astype(X.dtype)" % o_)
         if okk:
             rep.ok("R7-integer", f.qualname, "real-coded operator output rounded, then cast to the dtype of the input")
         elif len(ds) == 2 and "astype" in ds[1] and "round" not in ds[1]:
